@@ -75,6 +75,18 @@ mod verif_cex_header {
                     std::fs::write(&ip, &d).unwrap();
                     let ctx = format!("file with {} commits (page size 1024; header slot 0 holds tx {}, slot 1 holds tx {}), header page {}: {}", commits, t0, t1, slot, what);
                     let r = std::panic::catch_unwind(|| {
+                        // C06: opening an existing file and reading it through read-only transactions never changes the file --
+                        // also when one of its header pages is damaged (no "repair" on open)
+                        {
+                            let db = OpenOptions::new().pagesize(PS as u64).open(&ip).map_err(|e| format!("open fails: {:?}", e))?;
+                            let _ = contents(&db);
+                            let _ = db.check();
+                        }
+                        let now = std::fs::read(&ip).unwrap();
+                        if now != d {
+                            let first = now.iter().zip(d.iter()).position(|(a, b)| a != b).unwrap_or(d.len().min(now.len()));
+                            return Err(format!("C06: opening the file, reading it and closing it CHANGED the file ({} -> {} bytes, first difference at offset {}, page {})", d.len(), now.len(), first, first / PS));
+                        }
                         let db = OpenOptions::new().pagesize(PS as u64).open(&ip).map_err(|e| format!("open fails: {:?}", e))?;
                         let got = contents(&db);
                         db.check().map_err(|e| format!("check() fails: {:?}", e))?;
@@ -84,6 +96,7 @@ mod verif_cex_header {
                     let _ = std::fs::remove_file(&ip);
                     match r {
                         Err(_) => { println!("CEX DBInner::open (C12): {}: reopening panics although the other header page is intact", ctx); panic!("c12"); }
+                        Ok(Err(e)) if e.starts_with("C06:") => { println!("CEX DBInner::open (C06 opening never writes): {}: {}", ctx, e); panic!("c06"); }
                         Ok(Err(e)) => { println!("CEX DBInner::open (C12): {}: {} although the other header page is intact", ctx, e); panic!("c12"); }
                         Ok(Ok(got)) => {
                             // a damaged record falls back to the intact header; damage outside the record / page type changes nothing
